@@ -5,6 +5,8 @@ use std::sync::{Arc, Mutex, RwLock};
 pub(crate) fn published_label_snapshot(
     published_labels: &RwLock<Arc<LabelSnapshot>>,
 ) -> Arc<LabelSnapshot> {
+    #[cfg(nervusdb_verif)]
+    crate::verif_hooks::lock("published_labels", "read", 3);
     published_labels.read().unwrap().clone()
 }
 
@@ -12,6 +14,8 @@ pub(crate) fn lookup_label_id(
     label_interner: &Mutex<LabelInterner>,
     name: &str,
 ) -> Option<LabelId> {
+    #[cfg(nervusdb_verif)]
+    crate::verif_hooks::lock("label_interner", "lock", 3);
     label_interner.lock().unwrap().get_id(name)
 }
 
